@@ -29,15 +29,6 @@ def nonempty_series (bs : List (String × ColumnSeries)) : Prop := ∀ b ∈ bs,
 def same_types (bs : List (String × ColumnSeries)) : Prop :=
   ∀ b ∈ bs, ∀ b' ∈ bs, b.2.cols.map (·.typ) = b'.2.cols.map (·.typ)
 
-theorem shapes_of_names_types : ∀ (a b : List Column), a.map (·.name) = b.map (·.name) →
-    a.map (·.typ) = b.map (·.typ) → a.map toShape = b.map toShape
-  | [], [], _, _ => rfl
-  | [], _ :: _, h, _ => by simp at h
-  | _ :: _, [], h, _ => by simp at h
-  | x :: xs, y :: ys, h1, h2 => by
-    simp only [List.map_cons, List.cons.injEq] at h1 h2 ⊢
-    exact ⟨by simp [toShape, h1.1, h2.1], shapes_of_names_types xs ys h1.2 h2.2⟩
-
 instance (bs : List (String × ColumnSeries)) : Decidable (ValidBuckets bs) := by
   unfold ValidBuckets ValidBucket; infer_instance
 instance (bs : List (String × ColumnSeries)) : Decidable (nonempty_series bs) := by
